@@ -10,11 +10,32 @@ PROPS = {
                  "distinct by hash of (config, type, values)."),
         "jobs": [{"run": "^TestC01", "shards": 16, "timeout_quick": 600, "timeout_thorough": 3000}],
     },
+    "C02": {
+        "rule": ("same generator as C01 (config x type definition x values). Oracle: the harness's reference encoder, written from README/wire.go/"
+                 "golden files and self-tested against all 19 golden files on every run; Marshal output must equal it byte for byte "
+                 "(after sorting map entries with a strict type-guided walker when a map has >1 entry); and Unmarshal of the reference encoding "
+                 "with struct fields permuted at every nesting level must give the normalised value. Non-trivial = the encoding has >=2 fields "
+                 "or a container; distinct by hash of (config, type, values, permutation seed)."),
+        "jobs": [{"run": "^TestC02", "shards": 16, "timeout_quick": 600, "timeout_thorough": 3000}],
+    },
+    "C18": {
+        "rule": ("(1) exhaustive: every 2^k, 2^k±1, 2^k±2 and the extremes as uint64/int64/negated; all tags for wire types 0..5 x indexes 0..4096 and "
+                 "boundaries to 2^28; every byte string of length <=2 (quick) / <=3 (thorough) x wire types 0..7 through Skip; thorough: all 2^32 "
+                 "32-bit values. (2) rapid: uniform 64-bit values, tags, and for Skip well-formed fields of every wire type followed by arbitrary "
+                 "tails, every strict prefix of them, and arbitrary byte strings. Oracles: encoding/binary varints, closed-form size, protobuf "
+                 "zig-zag formula, size law -2^(7k-1)<=x<2^(7k-1) <=> k bytes, Skip(field||tail)==len(field), truncated => error, "
+                 "success => 0<=n<=len. Non-trivial = multi-byte value / non-varint wire type; enumerated cases are distinct by construction, "
+                 "random ones by hash."),
+        "jobs": [
+            {"run": "^TestC18(Boundaries|Random|Skip|SkipExhaustive)$", "shards": 4, "timeout_quick": 600, "timeout_thorough": 3000},
+            {"run": "^TestC18All32$", "shards": 16, "thorough_only": True, "timeout_thorough": 3000},
+        ],
+    },
 }
 
 # Properties not (yet) claimed, with the reason. Kept current by hand.
 NOT_APPLICABLE = {p: "check not built yet in this commit (work in progress; the technique applies, see DESIGN.md)" for p in
-                  ["C02", "C03", "C04", "C05", "C06", "C07", "C08", "C09", "C10", "C11", "C12", "C13", "C14", "C15", "C16", "C17", "C18", "C19", "C20"]}
+                  ["C03", "C04", "C05", "C06", "C07", "C08", "C09", "C10", "C11", "C12", "C13", "C14", "C15", "C16", "C17", "C19", "C20"]}
 
 # commits in /repo that add build-tag-guarded hooks
 HOOK_COMMITS = []
